@@ -252,3 +252,28 @@ func startWatchdog(d time.Duration, out string) {
 		os.Exit(2)
 	}()
 }
+
+
+// startParkedYield arms, in mode "yield", the scheduling points of the
+// instrumented copy of the client for an engine whose goroutines run one at a
+// time under the seeded scheduler. It returns the function that disarms them
+// and lets the goroutines still parked at a point go on (to be called before
+// finishResult), and false when the binary is not the instrumented one.
+func startParkedYield(sim *simkit.Sim, seed uint64, res *Result) (stop func(), ok bool) {
+	if *flagMode != "yield" {
+		return func() {}, true
+	}
+	if !yieldBuilt {
+		res.Harness = "mode yield needs the binary built from the instrumented copy (tag verifyield)"
+		return func() {}, false
+	}
+	ys := installYieldParked(sim, seed)
+	return func() {
+		fired, sites := ys.stop()
+		for i := 0; i < fired; i++ {
+			sim.Fault("goroutine-parked-at-sync-operation")
+		}
+		sim.Note("scheduling points: %d parks at %d active sites", fired, sites)
+		sim.Run(func() bool { return sim.Enabled() == 0 })
+	}, true
+}
